@@ -619,6 +619,41 @@ func boundaryFrames() [][]byte {
 	return conns
 }
 
+// orderFrames: a header block left open (HEADERS without END_HEADERS, or that plus a CONTINUATION without it)
+// followed by one frame of EVERY type 0..255 - on the same stream, on another stream, on stream 0 - one
+// connection each (added after seeded change C10-L: a frame-order rule relaxed for unknown types, and a type
+// assertion elsewhere that relied on it, on the goroutine that reads frames).
+func orderFrames() [][]byte {
+	var conns [][]byte
+	open := h2peer.RawFrame(1, 0x1, 1, []byte{0x82, 0x87}) // :method GET, :scheme https, END_STREAM, no END_HEADERS
+	cont := h2peer.RawFrame(9, 0, 1, []byte{0x84})         // :path /, still open
+	for t := 0; t < 256; t++ {
+		for v := 0; v < 3; v++ {
+			if v > 0 && t >= 16 && t%16 != 10 {
+				continue // the second and third shape for the known types and a sample of the unknown ones
+			}
+			var b bytes.Buffer
+			b.WriteString(h2peer.ClientPreface)
+			b.Write(h2peer.RawFrame(4, 0, 0, nil))
+			b.Write(open)
+			sid, flags, pl := uint32(1), uint8(0x4), []byte{0x84, 0x41, 0x01, 'x'}
+			switch v {
+			case 1:
+				b.Write(cont)
+				sid, flags, pl = 3, 0, []byte{0, 0, 0, 0, 0, 0, 0, 1}
+			case 2:
+				sid, flags, pl = 0, 0x1, nil
+			}
+			b.Write(h2peer.RawFrame(uint8(t), flags, sid, pl))
+			// what a client that got away with it would send next
+			b.Write(h2peer.RawFrame(9, 0x4, 1, []byte{0x84, 0x41, 0x01, 'x'}))
+			b.Write(h2peer.RawFrame(6, 0, 0, []byte("c10order")))
+			conns = append(conns, b.Bytes())
+		}
+	}
+	return conns
+}
+
 func stallAt(c net.Conn, step string) {
 	h := &hello.Hello{LegacyVersion: 0x0303, Compression: []byte{0}, Random: make([]byte, 32), Ciphers: []uint16{0xc02f, 0x009c, 0x1301},
 		Exts: []hello.Ext{hello.SupportedGroups(29, 23), hello.PointFormats(0), hello.SigAlgs(0x0804, 0x0401, 0x0403), hello.ALPN("h2", "http/1.1")}}
@@ -874,6 +909,9 @@ func main() {
 		single = append(single, &tcase{Class: "h2-held-streams", Proto: "h2", Offset: rep})
 	}
 	for _, raw := range boundaryFrames() {
+		batched = append(batched, &tcase{Class: "post-handshake-bytes", Proto: "h2", raw: raw})
+	}
+	for _, raw := range orderFrames() {
 		batched = append(batched, &tcase{Class: "post-handshake-bytes", Proto: "h2", raw: raw})
 	}
 	for i := run.Pick(60, 600); i > 0; i-- {
